@@ -342,6 +342,19 @@ def _install_shims():
     cs.EncryptedCookieStorage = _make_stub_class('EncryptedCookieStorage')
     sys.modules['aiohttp_session.cookie_storage'] = cs
 
+    # dill: pickle-backed (enough for hailtop.batch's PythonJob plumbing as long as the serialized callables are
+    # importable module-level functions or builtins; dill-only keywords such as recurse= are accepted and ignored)
+    if 'dill' not in _REAL:
+        import pickle
+
+        _mod('dill',
+             dump=lambda obj, file, *a, **k: pickle.dump(obj, file),
+             dumps=lambda obj, *a, **k: pickle.dumps(obj),
+             load=lambda file, *a, **k: pickle.load(file),
+             loads=lambda data, *a, **k: pickle.loads(data),
+             PicklingError=pickle.PicklingError, UnpicklingError=pickle.UnpicklingError,
+             __verif_shim__='pickle')
+
     # regex -> re (the `regex` third-party module used by a few files)
     import re as _re
     sys.modules.setdefault('regex', _re) if 'regex' not in _REAL else None
